@@ -12,6 +12,7 @@ a nil encoder (impossible after a successful Init, tscreen.go:194-199) behaves l
 Maps are association lists, the first binding wins (`insert` = Go map assignment, `erase` = `delete`).
 -/
 import Tcell.Model.Cell
+import Tcell.Model.TPuts
 import Tcell.Gen.TerminfoStruct
 namespace Tcell
 
@@ -36,14 +37,18 @@ def RuneMap.erase (m : RuneMap) (r : Rune) : RuneMap := m.filter (fun p => p.1 !
 
 /-- which side of the known defect sites the model takes (HACKING.md "Known defects"):
 `acsAll = false` is the pinned loop `for len(acsstr) > 2`, `true` the repaired `>= 2`;
-`acsRawByte`: see `acsDstv`. -/
+`acsRawByte`: see `acsDstv`; `acsStrip`: see `acsCap` (fixes/C17-acs-strip-padding.patch). -/
 structure EncVariant where
   acsAll : Bool := false
   acsRawByte : Bool := false
+  acsStrip : Bool := false
 deriving DecidableEq, Repr, Inhabited
 
 def EncVariant.pinned : EncVariant := {}
+/-- /repo since 1c34022 (loop `>= 2`, raw terminal byte); smacs/rmacs still composed as the database has them -/
 def EncVariant.repaired : EncVariant := { acsAll := true, acsRawByte := true }
+/-- … plus fixes/C17-acs-strip-padding.patch: padding specifications removed from smacs/rmacs -/
+def EncVariant.stripped : EncVariant := { acsAll := true, acsRawByte := true, acsStrip := true }
 
 /-- `dstv := string(acsstr[1])` (tscreen.go:1288): converting a *byte* with `string(…)` is Go's integer→string conversion,
 i.e. the UTF-8 encoding of the code point U+00dd — two bytes for `d ≥ 0x80` (pinned).  Repaired: the byte itself. -/
@@ -64,9 +69,16 @@ def acsLoop (v : EncVariant) (names : List (Nat × Rune)) (enter exit : Bytes) :
     else m
   | _, m => m
 
-/-- tscreen.go:1282 buildAcsMap -/
+/-- how buildAcsMap takes `EnterAcs` / `ExitAcs`.  Pinned (`acsStrip = false`): the capability string as the database has
+it, `$<n>` padding included — and drawCell writes the map's strings with `writeString`, not `TPuts`.
+Repaired (fixes/C17-acs-strip-padding.patch): `strip(s)` = the bytes `(&terminfo.Terminfo{}).TPuts(&b, s)` writes into a
+`strings.Builder` — the TPuts of the tree under test (`TPuts.tputs`) with an empty `PadChar` (so it never sleeps). -/
+def acsCap (v : EncVariant) (s : Bytes) : Bytes :=
+  if v.acsStrip then (TPuts.tputs [] s).bytes else s
+
+/-- tscreen.go:1337 buildAcsMap -/
 def buildAcsMap (v : EncVariant) (names : List (Nat × Rune)) (ti : Terminfo) : RuneMap :=
-  acsLoop v names ti.enterAcs ti.exitAcs ti.altChars []
+  acsLoop v names (acsCap v ti.enterAcs) (acsCap v ti.exitAcs) ti.altChars []
 
 /-- the state the output path reads (tscreen.go:137-141) -/
 structure EncState where
